@@ -185,8 +185,18 @@ func runC09(c *core.Ctx) {
 	cells := c09Cells(m, base, r)
 	skipsBefore := core.LibSkips()
 	sampled := false
-	for _, cell := range cells {
-		for _, pos := range c09Positions {
+	// long runs of rejected rows (size thresholds) for a few random cells of this model
+	longRun := map[int][]string{}
+	for k := 0; k < 6; k++ {
+		ci := r.Intn(len(cells))
+		n := core.Pick(r, []int{257, 1001, 1025})
+		if c.Thorough() {
+			n = core.Pick(r, []int{257, 1001, 1025, 4097})
+		}
+		longRun[ci] = append(longRun[ci], fmt.Sprintf("%d-consecutive", n))
+	}
+	for ci, cell := range cells {
+		for _, pos := range append(append([]string{}, c09Positions...), longRun[ci]...) {
 			a := base.Clone()
 			t := a.Table(cell.file)
 			injected := map[string]bool{}
@@ -211,6 +221,17 @@ func runC09(c *core.Ctx) {
 				for k := 0; k < 10; k++ {
 					ins(at, append([]string(nil), row...))
 				}
+			default:
+				var run int
+				fmt.Sscanf(pos, "%d-consecutive", &run)
+				at := r.Intn(n + 1)
+				row := cell.make(1)
+				block := make([][]string, run)
+				for k := range block {
+					block[k] = append([]string(nil), row...)
+				}
+				t.Rows = append(append(append([][]string{}, t.Rows[:at]...), block...), t.Rows[at:]...)
+				pos = "long-run"
 			}
 			// remember which rows of the rendered file are injected (by content; injected rows differ from all base rows)
 			baseRows := map[string]bool{}
@@ -280,6 +301,54 @@ func runC09(c *core.Ctx) {
 				sampled = true
 				c.Sample(map[string]any{"file": cell.file, "cause": cell.cause, "position": pos, "header": t.Header, "rows_with_injected": t.Rows, "warnings": len(s.Warnings)})
 			}
+		}
+	}
+	// several files at once: one rejected row of a random cause in every file, at random positions
+	nMulti := 12
+	if c.Thorough() {
+		nMulti = 40
+	}
+	for k := 0; k < nMulti; k++ {
+		a := base.Clone()
+		var what []string
+		byFile := map[string][]c09Cell{}
+		for _, cell := range cells {
+			byFile[cell.file] = append(byFile[cell.file], cell)
+		}
+		for _, t := range a.Tables {
+			if len(byFile[t.Name]) == 0 || r.Chance(1, 4) {
+				continue
+			}
+			cell := core.Pick(r, byFile[t.Name])
+			n := 1 + r.Intn(3)
+			for j := 0; j < n; j++ {
+				t.InsertRow(r.Intn(len(t.Rows)+1), cell.make(100+j))
+			}
+			what = append(what, t.Name+"/"+cell.cause)
+		}
+		b := sgen.Encode(a, &sgen.Presentation{Plain: false, R: r.Fork(), NoExtraCols: false})
+		s, err, crashSig, crashMsg, stack := safeParseStaticStack(b, gtfs.ParseStaticOptions{InheritWheelchairBoarding: k%2 == 1})
+		c.Eval(1)
+		c.Feature("multi-file-injection")
+		detail := map[string]any{"injected": what}
+		if crashSig != "" {
+			detail["panic"], detail["stack"] = crashMsg, stack
+			c.Violationf(crashSig, detail, "rejected rows in several files crashed the parser: %s", crashMsg)
+			continue
+		}
+		if err != nil {
+			c.Violationf("C09|not-inert|multi-file|parse-error", detail, "adding rejected rows to several files made ParseStatic fail: %v", err)
+			continue
+		}
+		wantK := want
+		if k%2 == 1 {
+			sInh, _ := gtfs.ParseStatic(b0, gtfs.ParseStaticOptions{InheritWheelchairBoarding: true})
+			wantK = canon.DumpStaticMode(sInh, true, false, false)
+		}
+		c.Cmp(1)
+		if path, desc, differ := diffPath(wantK, canon.DumpStaticMode(s, true, false, false)); differ {
+			detail["diff_without_vs_with_bad_rows"] = desc
+			c.Violationf("C09|not-inert|multi-file|"+path, detail, "adding rejected rows to several files (%v, random presentation) changed the result: %s", what, desc)
 		}
 	}
 	c.Observe("library_skip_lines_during_matrix", int(core.LibSkips()-skipsBefore))
